@@ -7,7 +7,7 @@ Require Import List NArith Bool PeanoNat Lia ZifyBool ZifyN.
 Require Import KV.Parser.Utf8 KV.Parser.Unicode KV.Parser.Keywords KV.Parser.Scanners KV.Parser.Grammar KV.Parser.Run.
 Require Import KV.Parser.Utf8Proofs KV.Parser.ScannerProofs KV.Parser.HelperProofs KV.Parser.GrammarProofs KV.Parser.FuelProofs KV.Parser.RoundTrip KV.Parser.RoundTrip2 KV.Parser.RoundTrip3.
 Require KV.Parser.Lex KV.Parser.StmtRT KV.Parser.FilterRT KV.Parser.FilterRT2 KV.Parser.SelectRT KV.Parser.BindRT KV.Parser.ValuesRT KV.Parser.GroupRT
-        KV.Parser.PrologueRT KV.Parser.TopRT KV.Parser.SizeRT KV.Parser.UpdateRT KV.Parser.ExamplesRT.
+        KV.Parser.PrologueRT KV.Parser.TopRT KV.Parser.SizeRT KV.Parser.UpdateRT KV.Parser.TokenRT KV.Parser.ExamplesRT.
 Import ListNotations.
 Open Scope N_scope.
 
@@ -267,7 +267,7 @@ Print Assumptions C16_parser_total_no_fuel.
    by running the model. *)
 Section CST.
 Import KV.Parser.Lex KV.Parser.StmtRT KV.Parser.FilterRT KV.Parser.FilterRT2 KV.Parser.SelectRT KV.Parser.BindRT KV.Parser.ValuesRT KV.Parser.GroupRT
-       KV.Parser.PrologueRT KV.Parser.TopRT KV.Parser.SizeRT KV.Parser.UpdateRT.
+       KV.Parser.PrologueRT KV.Parser.TopRT KV.Parser.SizeRT KV.Parser.UpdateRT KV.Parser.TokenRT.
 
 (* a triples statement: subject, `;`-separated predicate groups (a predicate or `a`), `,`-separated objects, optional
    trailing `;`; any layout, every term class; the tree is the list of expanded triples *)
@@ -420,6 +420,47 @@ Proof.
   - now apply delete_data_rejects_variables_and_blank_nodes.
 Qed.
 Print Assumptions C16_update_data_checks_reject.
+(* ---- the remaining token classes, at scanner / term-position level (TokenRT.v) ------------------------------------ *)
+(* numbers with an exponent: mantissa (NumTok), `e` | `E`, optional sign, digits *)
+Theorem C16_roundtrip_numeric_exponent :
+  forall w tok rest, LayoutC w -> NumTokE tok -> Valid rest -> num_stop rest -> numeric_literal (w ++ tok ++ rest) = Ok (tok, rest).
+Proof. exact numeric_exponent_roundtrip. Qed.
+Print Assumptions C16_roundtrip_numeric_exponent.
+
+(* literals: short (`q body q`) or LONG (`qqq body qqq`, both quote kinds, line breaks and the other quote kind inside),
+   plain, with a language tag `@alpha+(-alnum+)*`, or with a datatype `^^` layout (IRI | prefixed name) *)
+Theorem C16_roundtrip_literal_forms :
+  forall w lit rest, LayoutC w -> AnyLit lit -> Valid rest ->
+    ((match rest with b :: _ => b <> 64 /\ b <> 94 /\ b <> 34 /\ b <> 39 | [] => True end) -> quoted_literal (w ++ lit ++ rest) = Ok (lit, rest)) /\
+    (forall lang, LangTag lang -> lang_stop rest -> quoted_literal (w ++ (lit ++ 64 :: lang) ++ rest) = Ok (lit ++ 64 :: lang, rest)) /\
+    (forall wd t, lay_okb wd = true -> term_okb t = true -> is_dt_kind t = true -> term_stopb t rest = true ->
+       quoted_literal (w ++ (lit ++ 94 :: 94 :: lay_bytes wd ++ term_text t) ++ rest) = Ok (lit ++ 94 :: 94 :: lay_bytes wd ++ term_text t, rest)).
+Proof.
+  intros w lit rest Hw Hl Vr. repeat split.
+  - intros Hh. now apply literal_plain_roundtrip.
+  - intros lang Hg Hst. now apply literal_lang_roundtrip_any.
+  - intros wd t Hwd Hok Hk Hst. now apply literal_datatype_roundtrip_any.
+Qed.
+Print Assumptions C16_roundtrip_literal_forms.
+
+(* quoted triples `<< s p o >>` (one level) as a token and as subject / object term.  Layout inside is restricted to
+   whitespace (`lay_wsb`, part of `wf_qt`): the raw slice is the term's text, and the open finding
+   C16-comment-in-quoted-triple shows that a comment inside changes the answers of a request *)
+Theorem C16_roundtrip_quoted_triple :
+  forall c f w rest, wf_qt c rest = true -> LayoutC w -> Valid rest ->
+    quoted_triple (S (S f)) (w ++ pr_qt c ++ rest) = Ok (pr_qt c, rest) /\
+    subject_term (S (S f)) (w ++ pr_qt c ++ rest) = Ok (pr_qt c, rest) /\ object_term (S (S f)) (w ++ pr_qt c ++ rest) = Ok (pr_qt c, rest).
+Proof. intros c f w rest H Hw Hr. split; [now apply qt_roundtrip|now apply qt_term_roundtrip]. Qed.
+Print Assumptions C16_roundtrip_quoted_triple.
+
+(* bare identifiers (ASCII: a letter, then letters / digits / `_` / `-`) where the grammar allows them: the last
+   alternative of the subject and of the object chain, when every earlier scanner - prefixed name included - fails *)
+Theorem C16_roundtrip_bare_identifier :
+  forall f w tok rest, LayoutC w -> BareTok tok -> Valid rest -> bare_stop rest ->
+    subject_term (S f) (w ++ tok ++ rest) = Ok (tok, rest) /\
+    (kw_free_text [kw_true; kw_false] (tok ++ rest) = true -> object_term (S f) (w ++ tok ++ rest) = Ok (tok, rest)).
+Proof. intros f w tok rest Hw Ht Hr Hst. split; [now apply bare_identifier_subject|intros; now apply bare_identifier_object]. Qed.
+Print Assumptions C16_roundtrip_bare_identifier.
 End CST.
 
 (* C16_roundtrip_partial.  NOT proved as a round trip (decided on generated trees under ~10 layouts by the tree stream of
@@ -431,8 +472,11 @@ End CST.
    - `.` after FILTER / BIND / VALUES (the parser rejects it), OPTIONAL / MINUS (not in the grammar), a VALUES block
      `( ?x ) { ( 1 ) }` with one parenthesised variable and parenthesised rows (rejected by the parser as well);
    - the DATA aliases of parse_combined_query_with_options (`INSERT { .. }` / `DELETE { .. }` without WHERE);
-   - token classes: exponent forms of numbers, literals with language tag / datatype, long (triple-quoted) strings,
-     quoted triples `<< >>` as terms, `bare identifiers` as subjects / objects;
+   - token classes: numbers with exponents, literals with language tag / datatype, long strings, one-level quoted triples
+     and ASCII bare identifiers are proved at scanner / term-position level (C16_roundtrip_numeric_exponent ..
+     C16_roundtrip_bare_identifier) but are NOT constructors of the CST type `Term` yet, so they do not occur inside the
+     statement / group / request theorems; not proved at all: NESTED quoted triples, a long string that contains its own
+     quote character unescaped, non-ASCII bare identifiers;
    (fuel adequacy is no longer partial: C16_fuel_adequate / C16_parser_total_no_fuel hold for arbitrary input.) *)
 
 (* ---- the lexical helpers of the lowering (utils.rs) ------------------------------------------------ *)
